@@ -3,16 +3,17 @@
 # property's quick tier on a scratch worktree; one file per seed in seeded/_regress/, collected into seeded/_regress/summary.txt
 # ("caught" = exit 1 with a VIOLATION line)
 lanes=${1:-3}
+ROOT=${VERIF_ROOT:-$(cd "$(dirname "$0")/.." && pwd)}; export ROOT
 pat=${2:-.}
-out=/verif/seeded/_regress; mkdir -p $out
-ls -d /verif/seeded/C*/ | grep -v neutralised | grep -E "$pat" | while read d; do
+out=$ROOT/seeded/_regress; mkdir -p $out
+ls -d $ROOT/seeded/C*/ | grep -v neutralised | grep -E "$pat" | while read d; do
   n=$(basename $d); pid=$(echo $n | cut -d- -f1); echo "$n $pid"
 done | xargs -P $lanes -L 1 sh -c '
   n=$0; pid=$1
-  res=$(VERIF_MC_JOBS=5 /verif/tools/seedtest_copy.sh /verif/seeded/$n/patch.diff $pid quick 2>&1)
+  res=$(VERIF_MC_JOBS=5 $ROOT/tools/seedtest_copy.sh $ROOT/seeded/$n/patch.diff $pid quick 2>&1)
   rc=$(echo "$res" | grep -o "rc=[0-9]*" | head -1)
   if echo "$res" | grep -q "^VIOLATION" && [ "$rc" = "rc=1" ]; then v=caught; else v=MISSED; fi
-  echo "$n $rc $v" > /verif/seeded/_regress/$n.res
+  echo "$n $rc $v" > $ROOT/seeded/_regress/$n.res
 '
 cat $out/*.res | sort > $out/summary.txt
 echo "caught: $(grep -c caught $out/summary.txt)  missed: $(grep -c MISSED $out/summary.txt)"
